@@ -236,3 +236,110 @@ Proof.
   destruct (sim_run me _ _ d w (sim_set_crc me length) Hme _ _ _ E) as (d1 & w1 & E1 & _ & Hcv & Hf & _).
   exists d1, w1. repeat split; assumption.
 Qed.
+
+(* ---- pa_level = power | (power, lna), power in {-18,-12,-6,0} dBm: RF_SETUP bits 2,1 (RF_PWR) := 00 | 01 | 10 | 11,
+   bit 0 (LNA_HCURR) := lna (True when only the power is given), bits 7..3 (data rate, PLL_LOCK, CONT_WAVE) from the
+   object's cached RF_SETUP byte; any other power: ValueError, nothing written ---- *)
+Definition pa_bits (p : Z) : Z := (3 - p / -6) * 2.
+Definition pa_value (cached p : Z) (lna : bool) : N :=
+  N.land (Z.to_N (Z.lor (Z.lor (Z.land cached 248) (pa_bits p)) (zb lna))) 191.
+Definition pa_ok (p : Z) : Prop := p = -18 \/ p = -12 \/ p = -6 \/ p = 0.
+
+Lemma pa_bits_in p : pa_ok p -> In (pa_bits p) [0; 2; 4; 6].
+Proof. intros [->|[->|[->| ->]]]; cbn; auto. Qed.
+
+Lemma valid_pa_ok p : pa_ok p -> valid_pa p = true.
+Proof. intros [->|[->|[->| ->]]]; reflexivity. Qed.
+
+Lemma valid_pa_bad p : ~ pa_ok p -> valid_pa p = false.
+Proof.
+  intro H. unfold valid_pa. repeat (apply orb_false_iff; split); apply Z.eqb_neq; intro E; apply H; unfold pa_ok; auto.
+Qed.
+
+Lemma pa_value_bits cached p lna : 0 <= cached <= 255 -> pa_ok p ->
+  0 <= Z.lor (Z.lor (Z.land cached 248) (pa_bits p)) (zb lna) <= 255
+  /\ N.land (pa_value cached p lna) 6 = Z.to_N (pa_bits p)
+  /\ N.land (pa_value cached p lna) 1 = Z.to_N (zb lna)
+  /\ N.land (pa_value cached p lna) 248 = N.land (Z.to_N cached) 184.
+Proof.
+  intros Hc Hp. unfold pa_value.
+  pose proof (sweep_byte (fun v => forallb (fun s => forallb (fun l =>
+                 (0 <=? Z.lor (Z.lor (Z.land v 248) s) l) && (Z.lor (Z.lor (Z.land v 248) s) l <=? 255)
+                 && (N.land (N.land (Z.to_N (Z.lor (Z.lor (Z.land v 248) s) l)) 191) 6 =? Z.to_N s)%N
+                 && (N.land (N.land (Z.to_N (Z.lor (Z.lor (Z.land v 248) s) l)) 191) 1 =? Z.to_N l)%N
+                 && (N.land (N.land (Z.to_N (Z.lor (Z.lor (Z.land v 248) s) l)) 191) 248 =? N.land (Z.to_N v) 184)%N)
+                 [0; 1]) [0; 2; 4; 6])
+                         ltac:(vm_compute; reflexivity) cached Hc) as H.
+  cbv beta in H. rewrite forallb_forall in H. specialize (H _ (pa_bits_in p Hp)).
+  rewrite forallb_forall in H. specialize (H (zb lna) ltac:(destruct lna; cbn; auto)).
+  apply andb_true_iff in H. destruct H as [H H4]. apply andb_true_iff in H. destruct H as [H H3].
+  apply andb_true_iff in H. destruct H as [H H2].
+  apply N.eqb_eq in H2. apply N.eqb_eq in H3. apply N.eqb_eq in H4.
+  split; [apply range_of_bool; exact H|]. repeat split; assumption.
+Qed.
+
+(* the argument forms the setter accepts: an int, or a sequence starting (int power, bool-ish lna) *)
+Definition pa_arg (power : pyval) (p : Z) (lna : bool) : Prop :=
+  (power = PInt p /\ lna = true) \/ (exists rest, power = PList (PInt p :: PBool lna :: rest))
+  \/ (exists l rest, power = PList (PInt p :: PInt l :: rest) /\ lna = truthy l).
+
+Lemma set_pa_level_c power p lna d c : pa_arg power p lna -> 0 <= d_rf_setup d <= 255 -> pa_ok p ->
+  exists d', set_pa_level CB power d c = (Ok tt, d', cset c 6 (pa_value (d_rf_setup d) p lna)).
+Proof.
+  intros Ha Hd Hp. destruct (pa_value_bits (d_rf_setup d) p lna Hd Hp) as (Hr & _).
+  assert (E : set_pa_level CB power d c =
+              bind get (fun d0 =>
+               bind (modify (upd_rf_setup (Z.lor (Z.lor (Z.land (d_rf_setup d0) 248) (pa_bits p)) (zb lna)))) (fun _ =>
+               reg_write CB 6 (Z.lor (Z.lor (Z.land (d_rf_setup d0) 248) (pa_bits p)) (zb lna)))) d c).
+  { unfold set_pa_level, pa_bits.
+    destruct Ha as [[-> ->]|[[rest ->]|(l & rest & -> & ->)]]; cbv iota beta; rewrite (valid_pa_ok p Hp); reflexivity. }
+  rewrite E. mstep lia. mstep lia. rewrite reg_write_c by lia. eexists. f_equal.
+Qed.
+
+Lemma set_pa_level_rejects power p lna d c : pa_arg power p lna -> ~ pa_ok p ->
+  set_pa_level CB power d c = (Exn ValueError, d, c).
+Proof.
+  intros Ha Hp. unfold set_pa_level.
+  destruct Ha as [[-> ->]|[[rest ->]|(l & rest & -> & ->)]]; cbv iota beta; rewrite (valid_pa_bad p Hp); reflexivity.
+Qed.
+
+Theorem set_pa_level_world me power p lna d w :
+  (me < length (radios w))%nat -> pa_arg power p lna -> 0 <= d_rf_setup d <= 255 -> pa_ok p ->
+  exists d1 w1, set_pa_level (WB me) power d w = (Ok tt, d1, w1)
+    /\ cview (get_radio w1 me) = cset (cview (get_radio w me)) 6 (pa_value (d_rf_setup d) p lna)
+    /\ (forall j, j <> me -> cview (get_radio w1 j) = cview (get_radio w j)).
+Proof.
+  intros Hme Ha Hd Hp. destruct (set_pa_level_c power p lna d (cview (get_radio w me)) Ha Hd Hp) as (d' & E).
+  destruct (sim_run me _ _ d w (sim_set_pa_level me power) Hme _ _ _ E) as (d1 & w1 & E1 & _ & Hcv & Hf & _).
+  exists d1, w1. repeat split; assumption.
+Qed.
+
+Theorem set_pa_level_world_rejects me power p lna d w :
+  (me < length (radios w))%nat -> pa_arg power p lna -> ~ pa_ok p ->
+  exists d1 w1, set_pa_level (WB me) power d w = (Exn ValueError, d1, w1)
+    /\ (forall j, cview (get_radio w1 j) = cview (get_radio w j)).
+Proof.
+  intros Hme Ha Hp. pose proof (set_pa_level_rejects power p lna d (cview (get_radio w me)) Ha Hp) as E.
+  destruct (sim_run me _ _ d w (sim_set_pa_level me power) Hme _ _ _ E) as (d1 & w1 & E1 & _ & Hcv & Hf & _).
+  exists d1, w1. split; [exact E1|]. intro j. destruct (Nat.eq_dec j me) as [->|Hj]; [exact Hcv|apply Hf; exact Hj].
+Qed.
+
+(* what the getters compute from the register content the setter leaves: the power and the LNA flag come back *)
+Definition pa_of_bits (s : Z) : Z := if s =? 0 then -18 else if s =? 2 then -12 else if s =? 4 then -6 else 0.
+Lemma pa_of_bits_ok p : pa_ok p -> pa_of_bits (pa_bits p) = p.
+Proof. intros [->|[->|[->| ->]]]; reflexivity. Qed.
+
+Lemma pa_value_getter cached p lna : 0 <= cached <= 255 -> pa_ok p ->
+  (3 - Z.shiftr (Z.land (Z.of_N (pa_value cached p lna)) 6) 1) * -6 = p
+  /\ truthy (Z.land (Z.of_N (pa_value cached p lna)) 1) = lna.
+Proof.
+  intros Hc Hp. unfold pa_value.
+  pose proof (sweep_byte (fun v => forallb (fun s => forallb (fun l =>
+     ((3 - Z.shiftr (Z.land (Z.of_N (N.land (Z.to_N (Z.lor (Z.lor (Z.land v 248) s) (zb l))) 191)) 6) 1) * -6 =? pa_of_bits s)
+     && Bool.eqb (truthy (Z.land (Z.of_N (N.land (Z.to_N (Z.lor (Z.lor (Z.land v 248) s) (zb l))) 191)) 1)) l)
+     [true; false]) [0; 2; 4; 6]) ltac:(vm_compute; reflexivity) cached Hc) as H.
+  cbv beta in H. rewrite forallb_forall in H. specialize (H _ (pa_bits_in p Hp)).
+  rewrite forallb_forall in H. specialize (H lna ltac:(destruct lna; cbn; auto)).
+  apply andb_true_iff in H. destruct H as [H1 H2]. apply Z.eqb_eq in H1. apply Bool.eqb_prop in H2.
+  rewrite pa_of_bits_ok in H1 by exact Hp. split; assumption.
+Qed.
